@@ -39,7 +39,7 @@ ASSUMPTIONS = [
     "history cases: a call that is expected to raise is caught by the harness like an interactive caller would; the constraint dictionary read back from the model after the step (not the one requested) decides what is judged; "
     "reads of probe_model.probe with orthogonalize_probe off or center_probe on are not judged (the property is about the orthogonalisation's result; per-mode centring shifts do not keep modes orthogonal)",
 ]
-BUDGET = {"quick": {"soft_s": 110, "workers": 14}, "thorough": {"soft_s": 800, "workers": 14}}
+BUDGET = {"quick": {"soft_s": 300, "workers": 14}, "thorough": {"soft_s": 1200, "workers": 14}}
 MIN_EVALUATIONS = {"quick": 3000, "thorough": 30000}
 REQUIRED_COUNTERS = [
     "eval:complex_amplitude_above_one", "eval:pure_phase_amplitude_not_one", "eval:potential_negative_under_positivity", "eval:slices_not_identical", "eval:constraint_not_idempotent",
